@@ -38,7 +38,7 @@ pub enum Entry {
 pub enum Slash {
     /// "./name" relative to the child's cwd
     DotSlash,
-    /// "sub/name"
+    /// "Sub/name" (the harness's own directories start with a capital letter, generated names never do)
     Sub,
     Absolute,
 }
@@ -81,7 +81,7 @@ pub fn check_case(ctx: &Ctx, case: &PathCase, rep: &mut CaseReport) -> CaseResul
     // per entry: (directory, Option<errno>) ; None errno = runnable
     let mut model: Vec<Option<(PathBuf, Option<i32>)>> = vec![];
     for (i, e) in case.entries.iter().enumerate() {
-        let d = root.join(format!("d{}", i));
+        let d = root.join(format!("D{}", i));
         match e {
             Entry::Missing => {
                 path_strs.push(d.clone().into_os_string());
@@ -147,7 +147,7 @@ pub fn check_case(ctx: &Ctx, case: &PathCase, rep: &mut CaseReport) -> CaseResul
                     path_strs.push(d.clone().into_os_string());
                 } else {
                     mk_runnable_dir(&d);
-                    path_strs.push(OsString::from(format!("d{}", i)));
+                    path_strs.push(OsString::from(format!("D{}", i)));
                 }
                 model.push(Some((d, None)));
             }
@@ -166,8 +166,8 @@ pub fn check_case(ctx: &Ctx, case: &PathCase, rep: &mut CaseReport) -> CaseResul
     std::env::set_var("PATH", OsString::from_vec(path_val.clone()));
 
     // the child's cwd and the slash forms
-    let cwd_dir = root.join("cwd");
-    std::fs::create_dir_all(cwd_dir.join("sub")).unwrap();
+    let cwd_dir = root.join("Cwd");
+    std::fs::create_dir_all(cwd_dir.join("Sub")).unwrap();
     chmod(&cwd_dir, 0o777);
     let mut command: OsString = name.to_owned();
     let mut slash_expect: Option<Option<PathBuf>> = None; // Some(Some(dir)) = must run from dir; Some(None) = must fail ENOENT
@@ -175,9 +175,9 @@ pub fn check_case(ctx: &Ctx, case: &PathCase, rep: &mut CaseReport) -> CaseResul
         let base = if case.cwd { cwd_dir.clone() } else { root.clone() };
         let (cmd, dir) = match kind {
             Slash::DotSlash => (OsString::from(format!("./{}", case.name)), base.clone()),
-            Slash::Sub => (OsString::from(format!("sub/{}", case.name)), base.join("sub")),
+            Slash::Sub => (OsString::from(format!("Sub/{}", case.name)), base.join("Sub")),
             Slash::Absolute => {
-                let d = root.join("abs");
+                let d = root.join("Abs");
                 let mut c = d.clone().into_os_string();
                 c.push("/");
                 c.push(name);
@@ -195,7 +195,7 @@ pub fn check_case(ctx: &Ctx, case: &PathCase, rep: &mut CaseReport) -> CaseResul
         // which must NOT be used for a name with a slash
         for m in model.iter().flatten() {
             if m.0.is_dir() && kind == Slash::Sub {
-                let dd = m.0.join("sub");
+                let dd = m.0.join("Sub");
                 if std::fs::create_dir_all(&dd).is_ok() {
                     mk_runnable_dir(&dd);
                 }
